@@ -111,6 +111,9 @@ CHECKS = {
  'C20': (['asan'], 'sanitizer monitor (ASan+UBSan, assertions recording but not throwing) over mutated dumps: every mutant is loaded and the returned object printed, hashed, compared, evaluated, expanded and re-serialised; oracle = sanitizer report / signal / abort / confirmed hang',
          'Corpus of real dumps from the C19 generator; 4000 (quick) to 400000 (thorough) mutants: bit flips, boundary bytes, truncation, splices, duplicated and deleted ranges, 8-byte length / id fields overwritten with boundary values, random bytes.',
          'Allocation requests above 512 MB refused by the allocator are counted as the exception a normal build would throw; a time-out is re-run alone (120 s) before it counts as a hang.', 'DESIGN.md 3/C20'),
+ 'C13': (['asan'], 'event-log monitor vs mpmath: one evaluator object per history (init / call / re-init) driven in the executor; outputs compared with the monitor\'s 50-digit evaluation of the library\'s own output trees at the exact input doubles (tolerance from measured conditioning, real mode only where every intermediate is real, complex mode off branch cuts), CSE on vs off, re-initialised vs fresh bit for bit; ASan on the callback tables',
+         'Evaluators with 1-3 inputs and 1-4 outputs over arithmetic, powers, 33 elementary functions, atan2, Piecewise with relational / Contains / logical conditions, max/min, sign/floor/ceiling/truncate, relational and logical outputs; 3 input vectors each; histories A, B, A, A+cse on one object.',
+         'Points at discontinuities or poles (detected by two-sided perturbation and a 16-digit re-evaluation) are not judged.', 'DESIGN.md 3/C13'),
 }
 
 def main():
